@@ -22,12 +22,13 @@ struct Opt {
     block: Option<u16>,
     verify: bool,
     skip_enc: bool,
+    skip_sig: bool,
     list_only: bool,
 }
 
 impl Opt {
     fn class(&self) -> String {
-        format!("t{}|c{}|b{}|v{}|se{}|lo{}", self.target.map(|t| t.to_string()).unwrap_or("-".into()), self.comp.map(|c| format!("{c:02x}")).unwrap_or("-".into()), self.block.map(|b| b.to_string()).unwrap_or("-".into()), self.verify as u8, self.skip_enc as u8, self.list_only as u8)
+        format!("t{}|c{}|b{}|v{}|se{}|ss{}|lo{}", self.target.map(|t| t.to_string()).unwrap_or("-".into()), self.comp.map(|c| format!("{c:02x}")).unwrap_or("-".into()), self.block.map(|b| b.to_string()).unwrap_or("-".into()), self.verify as u8, self.skip_enc as u8, self.skip_sig as u8, self.list_only as u8)
     }
     fn to_options(&self) -> RebuildOptions {
         let mut o = RebuildOptions::default();
@@ -44,6 +45,7 @@ impl Opt {
         o.override_block_size = self.block;
         o.verify = self.verify;
         o.skip_encrypted = self.skip_enc;
+        o.skip_signatures = self.skip_sig;
         o.list_only = self.list_only;
         o
     }
@@ -70,6 +72,7 @@ fn main() {
             block: *rng.pick(&[None, None, Some(0u16), Some(3), Some(8)]),
             verify: rng.bool(),
             skip_enc: rng.chance(1, 4),
+            skip_sig: !rng.chance(1, 3),
             list_only: rng.chance(1, 10),
         };
         // file set: C01 generator (includes a zero-length file, multi-sector files) with "random"-class files made mildly
@@ -99,6 +102,11 @@ fn main() {
                     _ => b.add_file_data_with_encryption(f.data.clone(), &f.name, cfg.method, true, 0),
                 };
             }
+            // every third source carries a "(signature)" entry as signed archives do (weak signature block: 8 + 64 bytes)
+            if idx % 3 == 0 {
+                b = b.add_file_data_with_options(vec![0u8; 72], "(signature)", 0, false, 0);
+                c.count("sources_with_signature_entry", 1);
+            }
             if let Err(e) = b.build(&src) {
                 c.skip(format!("source build failed: {e}"));
                 c.nontrivial = false;
@@ -110,6 +118,21 @@ fn main() {
         });
     }
     run.done();
+}
+
+/// Independent comparison used for the verify leg: every expected file readable and identical, no unlisted ordinary name.
+fn faithful(dst: &std::path::Path, want: &BTreeMap<String, Vec<u8>>, all: &BTreeSet<String>) -> bool {
+    let Ok(mut ta) = Archive::open(dst) else { return false };
+    for (n, w) in want {
+        match trap(|| ta.read_file(n)) {
+            Ok(Ok(g)) if &g == w => {}
+            _ => return false,
+        }
+    }
+    match ta.list() {
+        Ok(tl) => tl.iter().all(|e| is_special(&e.name) || all.contains(&norm(&e.name))),
+        Err(_) => false,
+    }
 }
 
 fn check(c: &mut Case, cfg: &Cfg, opt: &Opt, src: &std::path::Path, dst: &std::path::Path) {
@@ -162,8 +185,29 @@ fn check(c: &mut Case, cfg: &Cfg, opt: &Opt, src: &std::path::Path, dst: &std::p
             c.count("rebuild_err", 1);
             c.count(&format!("rebuild_err|{sv}->{tgt}|verify{}", opt.verify as u8), 1);
             c.note(json!({"rebuild_err": e.to_string()}));
-            // "verify: true returns Err" for a faithful rebuild would be a false negative of verify, but the statement only
-            // constrains Ok results; an Err result is not a violation.
+            // An Err result claims nothing about the target. One case is decidable all the same: with verify on, the
+            // library's own comparison of source and result is what failed — if the identical rebuild without verify
+            // succeeds and the independent comparison finds its target faithful (every listed, non-excluded file identical,
+            // nothing extra), the comparison reported a difference that does not exist.
+            if opt.verify && !opt.list_only && cfg.listfile && !s_content.is_empty() {
+                let dst2 = dst.with_extension("noverify.mpq");
+                let mut o2 = opt.to_options();
+                o2.verify = false;
+                if let Ok(Ok(_)) = trap(|| rebuild_archive(src, &dst2, o2, None)) {
+                    c.count("verify_errs_rechecked_without_verify", 1);
+                    if faithful(&dst2, &s_content, &s_all) {
+                        let msg = e.to_string();
+                        let why = if msg.contains("count mismatch") { "file-count-mismatch" } else if msg.contains("Content mismatch") { "content-mismatch" } else if msg.contains("missing in target") { "missing-in-target" } else { "other" };
+                        c.violate(
+                            format!("verify-rejects-faithful-rebuild|{sv}|{why}|sig={}|ss{}|se{}", listed.iter().any(|e| e.name == "(signature)") as u8, opt.skip_sig as u8, opt.skip_enc as u8),
+                            format!("rebuild with verify=true failed ({msg}) although the same rebuild without verify yields a target holding exactly the listed, non-excluded source files, bit-identical"),
+                            json!({"err": msg}),
+                        );
+                    }
+                }
+                let _ = std::fs::remove_file(&dst2);
+                return;
+            }
             c.nontrivial = false;
             return;
         }
